@@ -188,6 +188,9 @@ async fn run_case(at_start: Vec<usize>, cmds: &[i64]) -> Result<(Vec<(String, i6
     let mut raw: Vec<String> = vec![];
     let show = |a: &Address<Text>| format!("{}:{}", a.node, a.lane);
     let index = |a: &Address<Text>| TARGETS.iter().position(|(n, l)| a.host.is_none() && a.node.as_str() == *n && a.lane.as_str() == *l).map(|i| i as u64).unwrap_or(99);
+    // (the byte channel's cooperative budget makes a poll return Pending now and then although data is there: an
+    // empty poll is retried)
+    let mut idle = 0;
     loop {
         match msgs.next().now_or_never() {
             Some(Some(Ok(CommandMessage::Register { address, id }))) => {
@@ -212,8 +215,17 @@ async fn run_case(at_start: Vec<usize>, cmds: &[i64]) -> Result<(Vec<(String, i6
                 }
             }
             Some(Some(Err(e))) => return Err(format!("bad command message: {:?}", e)),
-            Some(None) | None => break,
+            Some(None) => break,
+            None => {
+                idle += 1;
+                if idle >= 4 {
+                    break;
+                }
+                tokio::task::yield_now().await;
+                continue;
+            }
         }
+        idle = 0;
     }
     handle.abort();
     let _ = handle.await;
